@@ -55,6 +55,7 @@ static const char* K(const char* what) { snprintf(keybuf, sizeof keybuf, "%s:%s"
 static int is_struct_kind(int k) { return k == NK_PNODE || k == NK_PMARK || k == NK_PADDR || k == NK_THREAD; }
 static const char* THKEY[PN_FIELDS] = { "slot-a", "slot-b", "slot-c", "slot-d" };
 static var noop_fn;
+static var thread_template;
 static var thread_noop(var args) { (void)args; return NULL; }
 static int is_seq_kind(int k) { return k == NK_ARR_REF || k == NK_LIST_REF || k == NK_ARR_EMB || k == NK_TUPLE; }
 static int is_map_kind(int k) { return k >= NK_TAB_INT_REF && k <= NK_TREE_REF_REF; }
@@ -246,7 +247,11 @@ static int alloc_node(int kind, int as_root) {
     case NK_TREE_INT_REF: p = new(Tree, Int, Ref); break;
     case NK_TREE_REF_REF: p = new(Tree, Ref, Ref); break;
     case NK_TUPLE: p = new(Tuple); break;
-    case NK_THREAD: p = new(Thread, noop_fn); break;
+    case NK_THREAD:
+      /* half of them are clones: copy of an (unstarted) Thread object takes over a copy of its storage table */
+      if (thread_template == NULL) { thread_template = new_raw(Thread, noop_fn); set(thread_template, $S("inherited"), Int); }
+      p = next_id % 2 ? (var)new(Thread, noop_fn) : copy(thread_template);
+      break;
     default: return -1;
   }
   if (mo_destructed != d0) { vh_count("threshold_collections_that_freed_something"); }
